@@ -166,7 +166,7 @@ PROPS = {
         'engine': 'sequence',
         'rule': 'L: full lattice scalar x DIM x grid x origin point x end point, points on a sub-cell lattice (border, '
                 'quarter, centre) of cells spread over the grid incl. first/last; each cast of a fresh caster checked '
-                'against the geometric definition. S: every sequence of the 34 caster operations (incl. setGridIndexMapping between two grids, assignment to another caster, copy) to the stated depth on '
+                'against the geometric definition. S: every sequence of the 39 caster operations (incl. setGridIndexMapping between two grids, assignment to another caster, copy, aliased arguments, the grid re-assigned in place, a same-index point after a grid switch) to the stated depth on '
                 'one caster; each cast with an explicit end point compared with a fresh caster and with the geometric '
                 'oracle. states = distinct private caster states seen, transitions = operations executed. non-trivial = '
                 'ray longer than 2 cells or axis-aligned/diagonal/coincident (L); cast that is not the first operation (S).',
